@@ -214,7 +214,7 @@ def sized_params(g):
     def P(name, sizes, build):
         return (name, sizes, build)
     return [
-        P("ac.generate_ac", [16], lambda v: op_generate_ac(v[0], g.msg(), "EMV", None, proj="class")),
+        P("ac.generate_ac", [16], lambda v: op_generate_ac(v[0], g.msg(), R.choice(["EMV", "VISA", "-"]), None, proj="class")),
         P("ac.arpc1", [16, 8, 2], lambda v: op_arpc1(v[0], v[1], v[2], proj="class")),
         P("ac.arpc2", [16, 8, 4], lambda v: op_arpc2(v[0], v[1], v[2], R.choice([None, R.randbytes(R.randrange(0, 9))]), proj="class")),
         P("kd.common_sk", [16, 8], lambda v: op_common_sk(v[0], v[1], proj="class")),
